@@ -4,6 +4,8 @@ package main
 import (
 	"fmt"
 	"os"
+	"runtime/debug"
+	"runtime/pprof"
 	"sort"
 
 	"verif/mc/report"
@@ -37,7 +39,16 @@ func main() {
 		fmt.Fprintf(os.Stderr, "unknown property %q\n", id)
 		os.Exit(2)
 	}
+	debug.SetGCPercent(400)
 	r := report.New(id, os.Args[2])
+	if pf := os.Getenv("VERIF_PPROF"); pf != "" {
+		fh, _ := os.Create(pf)
+		pprof.StartCPUProfile(fh)
+		f(r)
+		pprof.StopCPUProfile()
+		fh.Close()
+		r.Finish()
+	}
 	f(r)
 	r.Finish()
 }
